@@ -14,10 +14,14 @@ if go build ./... 2>/dev/null; then builds=yes; fi
 n=$(go test -count=1 -json ./... 2>/dev/null | grep -c '"Action":"pass","Package":"[^"]*","Test"')
 f=$(go test -count=1 -json ./... 2>/dev/null | grep -c '"Action":"fail","Package":"[^"]*","Test"')
 if [ "$f" = "0" ] && [ "$n" -ge 413 ]; then suite=yes; fi
-cp $OUT/demo_test.go ./zz_seeded_demo_test.go
-if go test -count=1 -run 'Demo|TestC[0-9]+|Seed' . >/tmp/demo_with.log 2>&1; then demo_with=pass; else demo_with=fail; fi
+DDIR=.
+if grep -q '^package zhttp' $OUT/demo_test.go; then DDIR=./zhttp; fi
+RACE=""
+if grep -q -- '-race' $OUT/README.md 2>/dev/null; then RACE="-race"; fi
+cp $OUT/demo_test.go $DDIR/zz_seeded_demo_test.go
+if go test $RACE -count=1 -run 'Demo|TestC[0-9]+|Seed' $DDIR >/tmp/demo_with.log 2>&1; then demo_with=pass; else demo_with=fail; fi
 git checkout -q -- . 
-if go test -count=1 -run 'Demo|TestC[0-9]+|Seed' . >/tmp/demo_without.log 2>&1; then demo_without=pass; else demo_without=fail; fi
+if go test $RACE -count=1 -run 'Demo|TestC[0-9]+|Seed' $DDIR >/tmp/demo_without.log 2>&1; then demo_without=pass; else demo_without=fail; fi
 cd /
 git -C /repo worktree remove --force $WT
 echo "{\"applies\":\"$applies\",\"builds\":\"$builds\",\"suite_passes_with_change\":\"$suite\",\"suite_pass_count\":$n,\"demo_with_change\":\"$demo_with\",\"demo_without_change\":\"$demo_without\"}"
